@@ -919,6 +919,64 @@ def _tconv_geom(net, k, s, pad):
     return True
 
 
+def _ss_geom(net, b, e):
+    """STRIDED_SLICE [b_h : H - e_h, b_w : W - e_w, b_c : C - e_c] (strides 1, no masks)"""
+    x = net.cur
+    t = net.T(x)
+    if not _hw4(net):
+        return False
+    n, h, w, c = t["shape"]
+    begin = [0, b[0], b[1], b[2]]
+    end = [n, h - e[0], w - e[1], c - e[2]]
+    new = [end[i] - begin[i] for i in range(4)]
+    if min(new) <= 0:
+        return False
+    bt = net.const([4], "int32", "data", values=begin)
+    et = net.const([4], "int32", "data", values=end)
+    st = net.const([4], "int32", "data", values=[1, 1, 1, 1])
+    y = net.act(new, t["dtype"], q=(net.scale(x), net.zp(x)))
+    net.op("STRIDED_SLICE", [x, bt, et, st], [y], ("StridedSliceOptions", dict(BeginMask=0, EndMask=0, EllipsisMask=0, NewAxisMask=0, ShrinkAxisMask=0)))
+    return True
+
+
+def _concat_geom(net, axis, extra):
+    """CONCATENATION of the current tensor with a constant-free second branch (RELU of it, sliced to `extra` along the axis) and itself:
+    three parts of unequal extent along `axis`"""
+    x = net.cur
+    t = net.T(x)
+    if not _hw4(net) or t["shape"][axis] <= extra or extra <= 0:
+        return False
+    shp = list(t["shape"])
+    b = [0, 0, 0, 0]
+    sz = list(shp)
+    sz[axis] = extra
+    bt = net.const([4], "int32", "data", values=b)
+    st = net.const([4], "int32", "data", values=sz)
+    part = net.act(sz, t["dtype"], q=(net.scale(x), net.zp(x)))
+    net.op("SLICE", [x, bt, st], [part], ("SliceOptions", {}))
+    r = net.act(shp, t["dtype"], q=(net.scale(x), net.zp(x)))
+    net.op("RELU", [x], [r], None)
+    out = list(shp)
+    out[axis] = 2 * shp[axis] + extra
+    y = net.act(out, t["dtype"], q=(net.scale(x), net.zp(x)))
+    net.op("CONCATENATION", [x, part, r], [y], ("ConcatenationOptions", dict(Axis=axis, FusedActivationFunction=0)))
+    return True
+
+
+def _split_geom(net, axis, parts, keep):
+    x = net.cur
+    t = net.T(x)
+    if not _hw4(net) or t["shape"][axis] % parts:
+        return False
+    ax = net.const([], "int32", "data", values=axis)
+    shp = list(t["shape"])
+    shp[axis] //= parts
+    ys = [net.act(shp, t["dtype"], q=(net.scale(x), net.zp(x))) for _ in range(parts)]
+    net.op("SPLIT", [ax, x], ys, ("SplitOptions", dict(NumSplits=parts)))
+    net.cur = ys[min(keep, parts - 1)]
+    return True
+
+
 _param_base = param_instance
 
 
@@ -938,6 +996,19 @@ def param_instance(name):  # noqa: F811
         return lambda n: _mean_ax(n, axes, keep=parts[2] == "k")
     if kind == "tconvg":
         return lambda n: _tconv_geom(n, int(parts[1][1:]), int(parts[2][1:]), PAD_SAME if parts[3] == "S" else PAD_VALID)
+    if kind == "resizeg":
+        op = "RESIZE_NEAREST_NEIGHBOR" if parts[1] == "nn" else "RESIZE_BILINEAR"
+        return lambda n: _resize(n, op, factor=int(parts[2][1:]), align=parts[3] == "a", half=parts[3] == "h")
+    if kind == "ssg":
+        b = [int(v) for v in parts[1][1:].split("-")]
+        e = [int(v) for v in parts[2][1:].split("-")]
+        return lambda n: _ss_geom(n, b, e)
+    if kind == "concatg":
+        return lambda n: _concat_geom(n, int(parts[1][1:]), int(parts[2][1:]))
+    if kind == "splitg":
+        return lambda n: _split_geom(n, int(parts[1][1:]), int(parts[2][1:]), int(parts[3][1:]))
+    if kind == "fcg":
+        return lambda n: _fc(n, int(parts[1][1:]))
     return _param_base(name)
 
 
